@@ -1859,13 +1859,15 @@ impl Attribute for crate::bgp::types::As4Path {
         )
     }
 
-    fn parse<'a, Octs: 'a + Octets>(parser: &mut Parser<'a, Octs>, ppi: PduParseInfo) 
+    fn parse<'a, Octs: 'a + Octets>(parser: &mut Parser<'a, Octs>, _ppi: PduParseInfo) 
         -> Result<Self, ParseError>
     {
         // XXX Same as with AsPath, reusing the old/existing As4Path here
+        // AS4_PATH always carries four-octet AS numbers (RFC 6793), also on
+        // the two-octet sessions it exists for; `validate` checks it that way.
         let asp = crate::bgp::aspath::AsPath::new(
             parser.peek_all().to_vec(),
-            ppi.four_octet_enabled()
+            true
         ).map_err(|_| ParseError::form_error("invalid AS4_PATH"))?;
         Ok(Self(asp.to_hop_path()))
     }
